@@ -406,6 +406,10 @@ func (ex *Expect) evalComponent(ni int) {
 		out := &Stream{Ordered: in.Ordered}
 		for _, it := range in.Items {
 			// the tagger mutates the record the item carries (shared by pointer)
+			if tagValueFor(n, it.Path) == "" {
+				out.Items = append(out.Items, it)
+				continue
+			}
 			if ex.Attached[Abs(it.Path)] == nil {
 				ex.Attached[Abs(it.Path)] = map[string]string{}
 			}
